@@ -233,23 +233,30 @@ def _i9_guarded_skip(b, ex, bb):
 
 
 def _i1_vec_index(b, ex, bb, t):
-    """I1: `v[k]` with constant k, dominated by `v.len() != n -> return` with k < n."""
+    """I1: `v[k]` with constant k, dominated by a length fact that implies k < v.len():
+    `v.len() == n` (k < n), `v.len() > n` (k <= n), `v.len() >= n` (k < n), or the false edge of
+    `v.len() < n` / `v.len() <= n` / `v.len() != n`."""
     args = ex.call_args(bb)
     if len(args) != 2 or args[1][0] != "const":
         return None
     k = args[1][1]
     v = args[0]
+    if not isinstance(k, int):
+        return None
+    flip = {"Lt": "Gt", "Gt": "Lt", "Le": "Ge", "Ge": "Le", "Eq": "Eq", "Ne": "Ne"}
+    neg = {"Lt": "Ge", "Ge": "Lt", "Gt": "Le", "Le": "Gt", "Eq": "Ne", "Ne": "Eq"}
     for d, vals, excl, s, tg in dominating_facts(b, ex, bb):
         truth = False if vals == [0] else (True if (vals is None and excl == [0]) else None)
-        if truth is None or d[0] != "bin" or d[1] not in ("Eq", "Ne"):
+        if truth is None or d[0] != "bin" or d[1] not in flip:
             continue
-        eq = (d[1] == "Eq") == truth
-        if not eq:
-            continue
-        for a, c in ((d[2], d[3]), (d[3], d[2])):
-            if c[0] == "const" and a[0] == "call" and a[1].endswith("::len") and a[2] and a[2][0] == v:
-                if isinstance(k, int) and 0 <= k < c[1]:
-                    return "I1: length == %d established at %s, index %d" % (c[1], b.where(b.term_loc(s)), k)
+        for a, c, op in ((d[2], d[3], d[1]), (d[3], d[2], flip[d[1]])):
+            if c[0] == "const" and a[0] == "call" and a[1].endswith("::len") and a[2] and strip_refs(a[2][0]) == strip_refs(v):
+                if not truth:
+                    op = neg[op]
+                n = c[1]
+                lo = {"Eq": n, "Gt": n + 1, "Ge": n}.get(op)   # least possible length
+                if lo is not None and 0 <= k < lo:
+                    return "I1: length %s %d established at %s, index %d" % ({"Eq": "==", "Gt": ">", "Ge": ">="}[op], n, b.where(b.term_loc(s)), k)
     return None
 
 
